@@ -620,6 +620,33 @@ fn barrier(c: &mut Ctx) -> Result<(), String> {
     for i in 0..n {
         check_stored_signatures(c, i, "after-synchronisation")?;
     }
+    if has(&c.cfg, "C09") {
+        // C09 under this engine's workload (moves between rooms, nested creations, rights-dependent refusals, several
+        // authors): after the recomputation barrier the daily log of every room on every node is the function of its content
+        for i in 0..n {
+            if c.w.nodes[i].compute_daily_log().is_err() {
+                continue;
+            }
+            let _ = c.w.nodes[i].drain_events();
+            for r in 0..c.rooms.len() {
+                let Some(room) = c.rooms[r].as_ref() else { continue };
+                let uid = room.uid;
+                let d = oracle::dump_room(&c.w.nodes[i].oracle_conn()?, &uid)?;
+                c.w.probe("c09_log_checks");
+                for (clause, detail) in oracle::check_daily_against_dump(&d) {
+                    c.w.violation("C09", &clause, format!("n{i} room{r}: {detail} (rights workload)"));
+                }
+                // and it equals a from-scratch rebuild by the real computation
+                if let Ok(rebuilt) = oracle::rebuild_daily(&d, &uid) {
+                    let a: Vec<String> = d.daily.iter().map(|x| x.line()).collect();
+                    let b: Vec<String> = rebuilt.iter().map(|x| x.line()).collect();
+                    if a != b {
+                        c.w.violation("C09", "history-depends-on-schedule", format!("n{i} room{r}: the stored log differs from a from-scratch rebuild: {} (rights workload)", oracle::first_diff(&a, &b).unwrap_or_default()));
+                    }
+                }
+            }
+        }
+    }
     Ok(())
 }
 
